@@ -791,6 +791,9 @@ class Mesh:
         if 'boundaries' in data and data['boundaries'] is not None:
             data['boundaries'] = {k: np.array(v)
                                   for k, v in data['boundaries'].items()}
+        # optional, orientations of the oriented boundaries
+        for k, v in (data.pop('orientations', None) or {}).items():
+            data['boundaries'][k] = OrientedBoundary(data['boundaries'][k], v)
         if 'subdomains' in data and data['subdomains'] is not None:
             data['subdomains'] = {k: np.array(v)
                                   for k, v in data['subdomains'].items()}
@@ -807,11 +810,18 @@ class Mesh:
             boundaries = {k: v.tolist() for k, v in self.boundaries.items()}
         if self.subdomains is not None:
             subdomains = {k: v.tolist() for k, v in self.subdomains.items()}
+        orientations = {}
+        if self.boundaries is not None:
+            orientations = {k: v.ori.tolist()
+                            for k, v in self.boundaries.items()
+                            if isinstance(v, OrientedBoundary)}
         return {
             'p': self.p.T.tolist(),
             't': self.t.T.tolist(),
             'boundaries': boundaries,
             'subdomains': subdomains,
+            # the key is present only if there are oriented boundaries
+            **({'orientations': orientations} if orientations else {}),
         }
 
     @classmethod
@@ -1378,7 +1388,8 @@ class Mesh:
             data['doflocs'],
             data['t'],
             _boundaries={
-                key[2:]: data[key]
+                key[2:]: (OrientedBoundary(data[key], data['o_' + key[2:]])
+                          if 'o_' + key[2:] in data.files else data[key])
                 for key in data.files
                 if key[:2] == 'b_'
             },
@@ -1393,6 +1404,9 @@ class Mesh:
 
         boundaries = {} if self.boundaries is None else self.boundaries
         subdomains = {} if self.subdomains is None else self.subdomains
+        orientations = {'o_' + key: value.ori
+                        for key, value in boundaries.items()
+                        if isinstance(value, OrientedBoundary)}
         boundaries = {'b_' + key: value for key, value in boundaries.items()}
         subdomains = {'s_' + key: value for key, value in subdomains.items()}
         np.savez(
@@ -1401,4 +1415,5 @@ class Mesh:
             t=self.t,
             **boundaries,
             **subdomains,
+            **orientations,
         )
